@@ -512,6 +512,16 @@ fn record_sub(ctx: &Ctx, sub: &Sub, st: &Stats, mode: &str, extra: Value) {
 
 /// Random search: proptest generates (and shrinks) a byte stream per case.
 pub fn drive_random(ctx: &Ctx, sub: &Sub, cases: u64, max_len: usize) {
+    drive_random_with(ctx, sub, cases, max_len, 20_000)
+}
+
+/// `drive_random` for sub-checks whose single case costs tens of milliseconds (modules of 10^5
+/// instructions, histories of 10^5 calls): the same search, shrinking bounded to a few dozen steps.
+pub fn drive_random_costly(ctx: &Ctx, sub: &Sub, cases: u64, max_len: usize) {
+    drive_random_with(ctx, sub, cases, max_len, 48)
+}
+
+fn drive_random_with(ctx: &Ctx, sub: &Sub, cases: u64, max_len: usize, shrink_iters: u32) {
     if cases == 0 {
         return;
     }
@@ -531,7 +541,7 @@ pub fn drive_random(ctx: &Ctx, sub: &Sub, cases: u64, max_len: usize) {
                     cfg.failure_persistence = None;
                     cfg.rng_seed = RngSeed::Fixed(sub_seed(ctx, sub, i));
                     cfg.rng_algorithm = RngAlgorithm::ChaCha;
-                    cfg.max_shrink_iters = 20_000;
+                    cfg.max_shrink_iters = shrink_iters;
                     cfg.max_shrink_time = 0;
                     cfg.verbose = 0;
                     cfg.max_global_rejects = 0;
